@@ -150,7 +150,8 @@ def placed_case(rng, kind, eq, k, p, errors, failures, cf, mnmx=None, persist=No
     ps = {'passes': passes}
     r = rng.random()
     if r < 0.06:
-        ps['before'] = [['raise', 12]] if rng.random() < 0.5 else [['set', rng.randrange(3), lib.fhex(rng.choice([float('nan'), 4.0]))]]
+        ps['before'] = rng.choice([[['raise', 12]], [['set', rng.randrange(3), lib.fhex(rng.choice([float('nan'), 4.0]))]],
+                                   [['set', 3, lib.fhex(2.0)], ['warnset', rng.randrange(4), lib.fhex(rng.choice([float('inf'), 4.0]))]]])
     elif r < 0.12:
         ps['after'] = [['raise', 13]] if rng.random() < 0.6 else [['warnset', 3, lib.fhex(1.0)]]
     c['scripts'] = {str(p): ps}
